@@ -131,5 +131,5 @@ Wit(w) == (Hist /\ Len(hist) > 1 /\ w) => (PrintT(<<"BEH", ToJson([steps |-> his
 WitThrowAtEndPlus1 == Wit(Last.op = "substr" /\ Last.throws = "T" /\ Last.pos = Len(a) + 1 /\ Len(a) = MaxLen)
 WitSubstrAtEnd     == Wit(Last.op = "substr" /\ Last.throws = "F" /\ Last.pos = MaxLen /\ Len(hist) = 2)
 WitNulInside       == Wit(Last.op = "substr" /\ Len(a) = 2 /\ a[1] = 0 /\ a[2] # 0 /\ Len(hist) = 3)
-WitWindowEq        == Wit(Last.op = "swap" /\ a = b /\ Len(a) = 2 /\ Len(hist) = 4)
+WitEmptyOfEmpty    == Wit(Last.op = "substr" /\ Last.throws = "F" /\ Len(hist) = 3 /\ hist[2].exp.size = 0 /\ Last.pos = 0 /\ Last.n = BIG)
 =============================================================================
